@@ -15,9 +15,9 @@ type dgw = {
   status : (int, dg_status) Hashtbl.t;
   popen : (int, bool) Hashtbl.t;
   mutable q_hosts : int list;
-  mutable q_svcs : (int * int) list;
+  mutable q_svcs : (int * int * bool) list;   (* service, host, created by an apply rule *)
   mutable q_tps : (int * bool) list;
-  mutable q_deps : dg_dep list;
+  mutable q_deps : (dg_dep * bool) list;      (* dependency, created by an apply rule *)
 }
 
 let dg_fresh_world () = {
@@ -46,11 +46,11 @@ let po_fun w = fun p -> match Hashtbl.find_opt w.popen (int_of_nat p) with Some 
 
 (* the part of dg_commit/dg_add that both the model run and the oracle share: what the graph and the
    registry look like AFTER an accepted batch *)
-let apply_batch w (hosts : int list) (svcs : (int * int) list) (tps : (int * bool) list) (deps : dg_dep list) =
+let strip_svcs svcs = List.map (fun (s, h, _) -> (s, h)) svcs
+
+(* registry and world after an ACCEPTED load whose resulting graph is g1 *)
+let apply_batch w (g1 : dg_graph) (tps : (int * bool) list) (deps : dg_dep list) =
   let old_nodes = List.map int_of_nat w.g.dgg_nodes in
-  let g1 = { dgg_nodes = w.g.dgg_nodes @ List.map nat_of_int hosts @ List.map (fun (s, _) -> nat_of_int s) svcs;
-             dgg_svc = w.g.dgg_svc @ List.map (fun (s, h) -> (nat_of_int s, nat_of_int h)) svcs;
-             dgg_deps = w.g.dgg_deps @ deps } in
   w.g <- g1;
   List.iter (fun (p, o) -> Hashtbl.replace w.popen p o) tps;
   (* children that were already active take the runtime path, new children push their pending groups on Start *)
@@ -59,10 +59,26 @@ let apply_batch w (hosts : int list) (svcs : (int * int) list) (tps : (int * boo
   let newch = dg_nat_dedup (List.map (fun d -> d.dgd_child) pend) in
   List.iter (fun c -> w.reg <- dg_reg_push_child pend w.reg c) newch
 
+(* the rounds in which ConfigItem::CommitNewItems commits the Dependency items of ONE load:
+   1. apply-rule dependencies of services that are themselves created by `apply Service`
+      (nested round while the outer loop is still at type Service),
+   2. plain `object Dependency` items,
+   3. apply-rule dependencies of plain hosts/services.
+   Each round runs the cycle check over its own items only. *)
+let load_batches (svcs : (int * int * bool) list) (deps : (dg_dep * bool) list) : dg_dep list list =
+  let apply_svc c = List.exists (fun (s, _, ap) -> ap && s = int_of_nat c) svcs in
+  let a = List.filter_map (fun (d, ap) -> if ap && apply_svc d.dgd_child then Some d else None) deps in
+  let b = List.filter_map (fun (d, ap) -> if not ap then Some d else None) deps in
+  let c = List.filter_map (fun (d, ap) -> if ap && not (apply_svc d.dgd_child) then Some d else None) deps in
+  List.filter (fun l -> l <> []) [a; b; c]
+
 let graph_with_queued w hosts svcs =
+  let svcs = strip_svcs svcs in
   { dgg_nodes = w.g.dgg_nodes @ List.map nat_of_int hosts @ List.map (fun (s, _) -> nat_of_int s) svcs;
     dgg_svc = w.g.dgg_svc @ List.map (fun (s, h) -> (nat_of_int s, nat_of_int h)) svcs;
     dgg_deps = w.g.dgg_deps }
+
+let started_fun w = let old = List.map int_of_nat w.g.dgg_nodes in fun c -> List.mem (int_of_nat c) old
 
 let clear_queue w = w.q_hosts <- []; w.q_svcs <- []; w.q_tps <- []; w.q_deps <- []
 
@@ -96,18 +112,19 @@ let group_lines w (reg : dg_regstate) with_st =
 
 let op_dg_commit _ =
   let w = !dgw in
-  let gq = graph_with_queued w w.q_hosts w.q_svcs in
+  let svcs = List.rev w.q_svcs in
+  let gq = graph_with_queued w (List.rev w.q_hosts) svcs in
   let deps = List.rev w.q_deps in
-  let ok = dg_check_ok gq deps in
-  if ok then apply_batch w (List.rev w.q_hosts) (List.rev w.q_svcs) (List.rev w.q_tps) deps;
+  let (g1, ok) = dg_load (started_fun w) gq (load_batches svcs deps) in
+  if ok then apply_batch w g1 (List.rev w.q_tps) (List.map fst deps);
   clear_queue w;
   emit (Printf.sprintf "commit ok=%d" (if ok then 1 else 0))
 
 let op_dg_add a =
   let w = !dgw in
   let d = dep_of_args a in
-  let ok = dg_check_ok w.g [d] in
-  if ok then apply_batch w [] [] [] [d];
+  let (g1, ok) = dg_load (started_fun w) w.g [[d]] in
+  if ok then apply_batch w g1 [] [d];
   emit (Printf.sprintf "add d=%s ok=%d" (ns d.dgd_id) (if ok then 1 else 0))
 
 let find_dep w id = List.find_opt (fun d -> int_of_nat d.dgd_id = id) w.g.dgg_deps
@@ -189,18 +206,19 @@ let oracle_c07_case script trace =
     if !err = None then
     match parse_line line with
     | Some ("dg_host", a) -> w.q_hosts <- num a "n" 0 :: w.q_hosts
-    | Some ("dg_svc", a) -> w.q_svcs <- (num a "n" 0, num a "h" 0) :: w.q_svcs
+    | Some ("dg_svc", a) -> w.q_svcs <- (num a "n" 0, num a "h" 0, str a "via" "obj" = "apply") :: w.q_svcs
     | Some ("dg_tp", a) -> w.q_tps <- (num a "p" 0, num a "open" 1 <> 0) :: w.q_tps
-    | Some ("dg_dep", a) -> w.q_deps <- dep_of_args a :: w.q_deps
+    | Some ("dg_dep", a) -> w.q_deps <- (dep_of_args a, str a "via" "obj" = "apply") :: w.q_deps
     | Some ("dg_commit", _) ->
       (match expect li "commit ok=" with
        | None -> ()
        | Some l ->
          let ok = (l = "commit ok=1") in
-         let gq = graph_with_queued w w.q_hosts w.q_svcs in
-         let deps = List.rev w.q_deps in
+         let gq = graph_with_queued w (List.rev w.q_hosts) (List.rev w.q_svcs) in
+         let deps = List.map fst (List.rev w.q_deps) in
+         (* the property does not care about batching: accepted iff the union is acyclic *)
          check_commit li "commit" gq deps ok;
-         if ok then apply_batch w (List.rev w.q_hosts) (List.rev w.q_svcs) (List.rev w.q_tps) deps;
+         if ok then apply_batch w { gq with dgg_deps = gq.dgg_deps @ deps } (List.rev w.q_tps) deps;
          clear_queue w)
     | Some ("dg_add", a) ->
       (match expect li "add d=" with
@@ -209,7 +227,7 @@ let oracle_c07_case script trace =
          let ok = (tok_val (toks_of l) "ok" = Some "1") in
          let d = dep_of_args a in
          check_commit li "add" w.g [d] ok;
-         if ok then apply_batch w [] [] [] [d])
+         if ok then apply_batch w { w.g with dgg_deps = w.g.dgg_deps @ [d] } [] [d])
     | Some ("dg_del", a) ->
       (match expect li "del d=" with
        | None -> ()
@@ -269,9 +287,9 @@ let oracle_c07_case script trace =
 
 let () =
   register_op "dg_host" (fun a -> let w = !dgw in w.q_hosts <- num a "n" 0 :: w.q_hosts);
-  register_op "dg_svc" (fun a -> let w = !dgw in w.q_svcs <- (num a "n" 0, num a "h" 0) :: w.q_svcs);
+  register_op "dg_svc" (fun a -> let w = !dgw in w.q_svcs <- (num a "n" 0, num a "h" 0, str a "via" "obj" = "apply") :: w.q_svcs);
   register_op "dg_tp" (fun a -> let w = !dgw in w.q_tps <- (num a "p" 0, num a "open" 1 <> 0) :: w.q_tps);
-  register_op "dg_dep" (fun a -> let w = !dgw in w.q_deps <- dep_of_args a :: w.q_deps);
+  register_op "dg_dep" (fun a -> let w = !dgw in w.q_deps <- (dep_of_args a, str a "via" "obj" = "apply") :: w.q_deps);
   register_op "dg_commit" op_dg_commit;
   register_op "dg_add" op_dg_add;
   register_op "dg_del" op_dg_del;
